@@ -1,13 +1,13 @@
 SPECIFICATION Spec
 CONSTANTS
   Obj = {1, 2, 3}
-  MaxSteps = 99
+  MaxSteps = 6
   TlsRecurse = TRUE
   SweepCoop = TRUE
   Emit = FALSE
   ClearOnProcess = TRUE
-  Spawners = FALSE
-  NestedSweep = FALSE
+  Spawners = TRUE
+  NestedSweep = TRUE
   TeardownLoop = TRUE
   StopOps = FALSE
 VIEW view
